@@ -3,6 +3,7 @@ package main
 import (
 	"bufio"
 	"fmt"
+	"github.com/samaritan-proxy/samaritan/cmd/samaritan/hotrestart"
 	"net"
 	"os"
 	"os/exec"
@@ -221,4 +222,131 @@ func c17Smoke(r *ev.Run) {
 	r.Case("smoke/two-real-processes")
 	r.Distinct("smoke/two-real-processes")
 	r.Sample(map[string]interface{}{"smoke": "old process with an established echo connection, new process started with __Samaritan_Parent__, listeners handed over, old exits 0"})
+}
+
+// c17RealOldProcess: the harness plays the child against a real old process built from cmd/samaritan and sends every known request
+// once, in several orders, while a client holds a fresh (not yet idle) connection to the admin port. Every request must be
+// acknowledged with its reply and the old process must stay alive until it is asked to terminate.
+func c17RealOldProcess(r *ev.Run) {
+	dir := filepath.Join(ev.Root, "run", "C17", "real")
+	os.RemoveAll(dir)
+	os.MkdirAll(dir, 0o755)
+	defer os.RemoveAll(dir)
+	bin := filepath.Join(dir, "samaritan")
+	build := exec.Command("go", "build", "-o", bin, "github.com/samaritan-proxy/samaritan/cmd/samaritan")
+	build.Dir = ev.Root
+	if out, err := build.CombinedOutput(); err != nil {
+		r.Internal("cannot build cmd/samaritan: %v: %s", err, truncStr(string(out), 600))
+		return
+	}
+	be, err := tcpsim.NewBackend(nil)
+	if err != nil {
+		r.Internal("backend: %v", err)
+		return
+	}
+	defer be.Close()
+	host, portS, _ := net.SplitHostPort(be.Addr)
+	bport, _ := strconv.Atoi(portS)
+	orders := [][]int{{mtLocalConfReq, mtAdminReq, mtDrainReq, mtTerminateReq}, {mtAdminReq, mtLocalConfReq, mtDrainReq, mtTerminateReq}, {mtDrainReq, mtAdminReq, mtLocalConfReq, mtTerminateReq}, {mtAdminReq, mtDrainReq, mtTerminateReq}}
+	names := map[int]string{mtAdminReq: "admin", mtLocalConfReq: "localconf", mtDrainReq: "drain", mtTerminateReq: "terminate"}
+	for oi, order := range orders {
+		adminPort, svcPort := freePort(), freePort()
+		b := &bootstrap.Bootstrap{
+			Admin: &bootstrap.Admin{Bind: &common.Address{Ip: "127.0.0.1", Port: uint32(adminPort)}},
+			StaticServices: []*bootstrap.StaticService{{Name: "echo",
+				Config:    &service.Config{Listener: &service.Listener{Address: &common.Address{Ip: "127.0.0.1", Port: uint32(svcPort)}}, Protocol: protocol.TCP},
+				Endpoints: []*service.Endpoint{{Address: &common.Address{Ip: host, Port: uint32(bport)}}}}},
+		}
+		js, _ := b.MarshalJSON()
+		cfgFile := filepath.Join(dir, fmt.Sprintf("sam%d.yaml", oi))
+		os.WriteFile(cfgFile, js, 0o644)
+		logPath := filepath.Join(ev.Root, "run", "C17", fmt.Sprintf("real-old-%d.log", oi))
+		f, _ := os.Create(logPath)
+		cmd := exec.Command(bin, "-config", cfgFile, "-data", dir, "-pidfile", filepath.Join(dir, fmt.Sprintf("old%d.pid", oi)))
+		cmd.Stdout, cmd.Stderr = f, f
+		if err := cmd.Start(); err != nil {
+			r.Internal("cannot start the old process: %v", err)
+			return
+		}
+		f.Close()
+		done := make(chan error, 1)
+		go func() { done <- cmd.Wait() }()
+		alive := func() bool {
+			select {
+			case err := <-done:
+				done <- err
+				return false
+			default:
+				return true
+			}
+		}
+		adminAddr := fmt.Sprintf("127.0.0.1:%d", adminPort)
+		up := false
+		for i := 0; i < 400 && !up; i++ {
+			if c, err := net.DialTimeout("tcp", adminAddr, 300*time.Millisecond); err == nil {
+				c.Close()
+				up = true
+			} else {
+				time.Sleep(20 * time.Millisecond)
+			}
+		}
+		var uc *net.UnixConn
+		for i := 0; i < 200 && uc == nil; i++ {
+			uc, _ = net.DialUnix("unix", nil, &net.UnixAddr{Name: fmt.Sprintf("@sam_domain_socket_%d", cmd.Process.Pid), Net: "unix"})
+			if uc == nil {
+				time.Sleep(20 * time.Millisecond)
+			}
+		}
+		if !up || uc == nil {
+			cmd.Process.Kill()
+			r.Internal("the old process did not come up: %s", child.Tail(logPath, 800))
+			return
+		}
+		// a client that has just connected to the admin API and has not sent its request yet
+		ac, _ := net.DialTimeout("tcp", adminAddr, time.Second)
+		w := map[string]interface{}{"requests": order, "admin_connection_open_and_not_idle": ac != nil}
+		ok := true
+		for _, typ := range order {
+			if err := hotrestart.VerifSendMessage(uc, uint8(typ), []byte("{}")); err != nil {
+				w["send_error"] = err.Error()
+			}
+			res := safeRead(uc, 5*time.Second)
+			time.Sleep(50 * time.Millisecond)
+			if res.err != nil || res.pan != nil || int(res.m.Type) != typ+1 {
+				w["failed_request"], w["reply_error"] = names[typ], fmt.Sprint(res.err)
+				if !alive() {
+					w["old_process_log_tail"] = child.Tail(logPath, 2500)
+					r.Violation("C17:real:old-process-died:"+names[typ], "the real old process died on a "+names[typ]+" request instead of acknowledging it: "+crashLineOf(logPath), w)
+				} else {
+					r.Violation("C17:real:wrong-acknowledgement:"+names[typ], "the real old process did not acknowledge a "+names[typ]+" request with the matching reply", w)
+				}
+				ok = false
+				break
+			}
+			r.Count("real_old_process_requests_acknowledged", 1)
+		}
+		if ok {
+			select {
+			case <-done:
+			case <-time.After(8 * time.Second):
+				r.Violation("C17:real:old-process-never-terminated", "the old process is still running 8 s after it acknowledged the terminate request", w)
+			}
+		}
+		if ac != nil {
+			ac.Close()
+		}
+		uc.Close()
+		cmd.Process.Kill()
+		r.Case(fmt.Sprintf("real-old-process/order%d", oi))
+	}
+}
+
+func crashLineOf(logPath string) string {
+	b, _ := os.ReadFile(logPath)
+	for _, l := range strings.Split(string(b), "\n") {
+		if strings.HasPrefix(l, "panic:") || strings.HasPrefix(l, "fatal error:") || strings.HasPrefix(l, "runtime: goroutine stack exceeds") {
+			return strings.TrimSpace(l)
+		}
+	}
+	return "exit without a panic line"
 }
